@@ -203,6 +203,8 @@ class CallMixin:
             raise EngineError(f'class attribute {v.cinfo.name}.{attr}')
         if isinstance(v, ModuleRef):
             if v.name.startswith('s3transfer'):
+                if f'{v.name}.{attr}' in self.repo.modules:
+                    return [ok(ModuleRef(f'{v.name}.{attr}'), st)]       # sub-module of the package (import s3transfer.compat)
                 mod = self.repo.modules[v.name]
                 return [ok(self.thaw(self.module_global(mod, attr, st), st), st)]
             return [ok(self.external_name(f'{v.name}.{attr}'), st)]
